@@ -396,14 +396,13 @@ example : Reach 2 { Hp.init with tasks := [Task.colWant] } := Reach.step Reach.i
     (file, type, fn, occurrence of `Ordering::` within that fn): observers claim with at least
     Acquire and publish with at least Release (`observe`, `LocalHistogramCore::flush`); the collector
     flips with at least AcqRel, spins with at least Acquire and reads-and-resets the cold cells with at
-    least AcqRel (`proto`); the f64 add loop loads with at least Acquire and exchanges with at least
-    Release -/
+    least AcqRel (`proto`). (The orderings of the f64 add loop in `src/atomic64.rs` are not part of the
+    hand-off; the replay machine compares them with every real trace.) -/
 def requiredOrderings : List (String × String × String × Nat × String) :=
   [("histogram.rs", "HistogramCore", "observe", 0, "Acquire"), ("histogram.rs", "HistogramCore", "observe", 1, "Release"),
    ("histogram.rs", "HistogramCore", "proto", 0, "AcqRel"), ("histogram.rs", "HistogramCore", "proto", 1, "Acquire"),
    ("histogram.rs", "HistogramCore", "proto", 3, "AcqRel"), ("histogram.rs", "HistogramCore", "proto", 4, "AcqRel"),
-   ("histogram.rs", "LocalHistogramCore", "flush", 0, "Acquire"), ("histogram.rs", "LocalHistogramCore", "flush", 1, "Release"),
-   ("atomic64.rs", "AtomicF64", "inc_by", 0, "Acquire"), ("atomic64.rs", "AtomicF64", "inc_by", 1, "Release")]
+   ("histogram.rs", "LocalHistogramCore", "flush", 0, "Acquire"), ("histogram.rs", "LocalHistogramCore", "flush", 1, "Release")]
 
 /-- **source_orderings_suffice** — over the table REGENERATED from `src/histogram.rs` and
     `src/atomic64.rs` on every run (`translate/orderings.py`): at every call site the hand-off needs,
